@@ -112,23 +112,39 @@ func (b *backend) setCompactRecord(ctx context.Context, revision uint64) (stale 
 }
 
 func (b *backend) getCompactBorders() [][]byte {
-	// exclude skipped key prefix
-	var keyPrefixes []string
-	keyPrefixes = append(keyPrefixes, b.config.Prefix)
-	keyPrefixes = append(keyPrefixes, b.config.SkippedPrefixes...)
-
-	// construct compact borders
-	var compactBorders [][]byte
-	for _, key := range keyPrefixes {
-		if !strings.HasSuffix(key, "/") {
-			key = key + "/"
+	// the key range of a directory: every key under "<dir>/"
+	dirRange := func(dir string) (start, end []byte) {
+		if !strings.HasSuffix(dir, "/") {
+			dir = dir + "/"
 		}
-		compactBorders = append(compactBorders, b.coder.EncodeObjectKey([]byte(key), 0))
-		compactBorders = append(compactBorders, b.coder.EncodeObjectKey(PrefixEnd([]byte(key)), 0))
+		return []byte(dir), PrefixEnd([]byte(dir))
 	}
-	// sort to make sure compact in right range
-	sort.Slice(compactBorders, func(i, j int) bool {
-		return bytes.Compare(compactBorders[i], compactBorders[j]) < 0
+	start, end := dirRange(b.config.Prefix)
+
+	// the skipped directories inside the prefix, in key order
+	type keyRange struct{ start, end []byte }
+	var skipped []keyRange
+	for _, dir := range b.config.SkippedPrefixes {
+		s, e := dirRange(dir)
+		if bytes.HasPrefix(s, start) {
+			skipped = append(skipped, keyRange{s, e})
+		}
+	}
+	sort.Slice(skipped, func(i, j int) bool {
+		return bytes.Compare(skipped[i].start, skipped[j].start) < 0
 	})
+
+	// cut them out of the prefix's range; two directories are either disjoint or
+	// one lies inside the other, and a directory inside a skipped one adds nothing
+	var compactBorders [][]byte
+	cur := start
+	for _, sk := range skipped {
+		if bytes.Compare(sk.start, cur) < 0 {
+			continue
+		}
+		compactBorders = append(compactBorders, b.coder.EncodeObjectKey(cur, 0), b.coder.EncodeObjectKey(sk.start, 0))
+		cur = sk.end
+	}
+	compactBorders = append(compactBorders, b.coder.EncodeObjectKey(cur, 0), b.coder.EncodeObjectKey(end, 0))
 	return compactBorders
 }
